@@ -514,8 +514,17 @@ def run_c19(ck, ctx):
         for p in pk:
             p.rdh['det'] = R.choice([0, 1, 2, 4, 8, 3, 12, 0x10, 0xFC0])
             for k, w in enumerate(p.words):
-                if w[9] in (0xF0, 0xE4) and R.random() < 0.5:
-                    b = bytearray(w); b[R.randrange(7)] = R.choice([1, 2, 3, 0x10, 0x80, 0xC0, 0x55, 0xAA]); p.words[k] = bytes(b)
+                if w[9] in (0xF0, 0xE4) and R.random() < 0.7:
+                    # two status bits per lane, four lanes per byte: single states, every pair of different states in neighbouring
+                    # lanes (also across a byte border), mixed bytes, random bytes — but often no fatal lane at all, so that the
+                    # weaker states decide what is shown
+                    b = bytearray(w)
+                    if R.random() < 0.5:
+                        b[R.randrange(7)] = R.choice([1, 2, 3, 0x10, 0x80, 0xC0, 0x55, 0xAA])
+                    else:
+                        alph = [0, 0, 0, 1, 2, 4, 6, 8, 9, 0x18, 0x24, 0x60, 0x80, 0x81, 0x90, 0x42, 0x55, 0xAA, 0x66, 0x99] + ([3, 0x0C, 0xC0, R.getrandbits(8)] if R.random() < 0.3 else [])
+                        for q in range(7): b[q] = R.choice(alph)
+                    p.words[k] = bytes(b)
         data = G.encode(pk)
         l = pk[R.randrange(len(pk))].rdh
         for view in ('rdh', 'frames', 'data'):
@@ -544,6 +553,10 @@ def run_c19(ck, ctx):
     for j, r in zip(jobs, res):
         si, view, flt, styled, data = j
         ck.case((si, view, flt, styled)); ck.count(f'view_{view}_{"styled" if styled else "plain"}')
+        if r.exit == 1 and 'Initial RDH0 deserialization failed sanity check' in r.stderr:
+            # the planted fault hit the very first RDH0: the input is refused at start-up (the global start-up gate recorded as a
+            # known finding under C02/C06/C08); nothing is shown, which is not a statement about the views
+            ck.count('refused_at_startup'); continue
         if r.exit != 0:
             ck.violation('abnormal', {'what': 'view ended abnormally', 'view': view, 'exit': r.exit, 'stderr': L.ANSI.sub('', r.stderr)[-300:], 'input_hex': data.hex()[:200000]},
                          key='stave-layer-or-alpide-panic' if 'Invalid layer' in r.stderr else None)
